@@ -35,6 +35,9 @@ def run(chk):
     # store part: faults threaded through add / merge_external / merge_owned
     for n in ((2,) if quick else (1, 2, 3)):
         c09.gen_and_replay(chk, f"store-d2-n{n}", n, 2, "full", focus="c11")
+        # ... and from a store that already holds two tracks: successful and failing owned merges, both history flags'
+        # effect on the destination, both tracks after a failed owned merge
+        c09.gen_and_replay(chk, f"store-pre2-d2-n{n}", n, 4, "full", focus="c11", pre=1)
     chk.assumptions += ["callbacks fail only where the fault plan says (harness doubles); a failing callback leaves "
                         "half-done changes behind (observations cleared, counter += 1000) so that a missing rollback is visible"]
     chk.finish(RULE, exhaustive=True)
